@@ -63,6 +63,7 @@ def jobs_text(jobs, repo):
     return "".join(out)
 
 
+TIMEOUT_RC = -999
 LOCKMON = ["-DLOCKMON", "-Wl,--wrap=pthread_mutex_lock", "-Wl,--wrap=pthread_mutex_unlock"]
 LAST = {}
 
@@ -76,10 +77,20 @@ def run_h(ctx, exe, jobs, nthreads, coexist, churn, tsan=False, timeout=1800, ho
     if tsan:
         env["TSAN_OPTIONS"] = TSAN_ENV
     args = [str(nthreads), str(coexist), str(churn)] + ([str(hold)] if hold is not None else [])
-    r = subprocess.run([str(exe)] + args, input=jobs_text(jobs, vlib.REPO), text=True, capture_output=True, timeout=timeout, env=env, cwd=cwd)
-    res, ids = {}, []
     LAST.clear()
-    LAST.update({"F": {}, "lockbal": None, "notnested": []})
+    LAST.update({"F": {}, "lockbal": None, "notnested": [], "timeout": False})
+    try:
+        r = subprocess.run([str(exe)] + args, input=jobs_text(jobs, vlib.REPO), text=True, capture_output=True, timeout=timeout, env=env, cwd=cwd)
+    except subprocess.TimeoutExpired as e:
+        # watchdog: the process is killed; what it printed so far (TSan reports come out as they happen) is kept
+        class R:
+            pass
+        r = R()
+        r.returncode = TIMEOUT_RC
+        dec = lambda b: b.decode(errors="replace") if isinstance(b, (bytes, bytearray)) else (b or "")
+        r.stdout, r.stderr = dec(e.stdout), dec(e.stderr)
+        LAST["timeout"] = True
+    res, ids = {}, []
     for l in r.stdout.splitlines():
         w = l.split()
         if w and w[0] == "R":
@@ -111,10 +122,16 @@ def lock_balance(ctx, label, js, res, hist):
                       {"mode": "seq", "jobs": [js[k] for k in bad][:3] or js})
 
 
-def tsan_reports(stderr):
-    """parse ThreadSanitizer reports; a report is attributed to the known finding `transport-file-scope-globals` iff it is a
-    data race and either its location is one of the listed globals, or (heap location, e.g. a node of cell_J_ij) the innermost
-    engine frame of every access stack lies in transport.cpp"""
+def tsan_reports(stderr, transport_phase=False):
+    """parse ThreadSanitizer reports; a report is attributed to the known finding `transport-file-scope-globals` iff its
+    location is one of the listed globals, or (heap location, e.g. a node of cell_J_ij) a transport.cpp frame takes part, or —
+    only in the phase that runs nothing but TRANSPORT jobs — it is a heap error whose faulting access lies in the engine's own
+    allocation list (phqalloc.cpp: PHRQ_free_all / PHRQ_free / PHRQ_malloc). Mechanism of the last case: the shared pointers
+    (ct, sol_D-like work arrays, mixf, …) are allocated with PHRQ_malloc by one instance and released with PHRQ_free by
+    another; PHRQ_free unlinks the block from the doubly linked list through the block's own neighbours, i.e. it edits the
+    OTHER instance's list, whose destructor (~Phreeqc -> PHRQ_free_all) then walks freed nodes. TSan often cannot restore the
+    second stack of such a report ("failed to restore the stack"), so no transport.cpp frame is visible. Seen on the unchanged
+    tree in 2 of 73 transport-phase runs; in the strict phase (no TRANSPORT job) the same report is a violation."""
     import vlib
     src = str(vlib.REPO) + "/src/"
     out = []
@@ -125,12 +142,15 @@ def tsan_reports(stderr):
         kind = m.group(1).strip()
         globs = [re.sub(r"\[abi:\w+\]", "", g) for g in re.findall(r"Location is global '([^']+)'", blk)]
         inner = []          # innermost engine frame of each access stack
+        raw_inner = []      # the same without skipping the allocator
         body = blk[m.end():]
         for sec in re.split(r"\n\s*\n", body):
             if not re.search(r"^\s*(Read|Write|Previous|Atomic)[^\n]* by (thread|main)", sec, re.M | re.I):
                 continue
             fr = [(fn, f, ln) for fn, f, ln in re.findall(r"#\d+ (\S.*?) (/\S+?):(\d+)", sec) if f.startswith(src) and os.path.basename(f) != "phqalloc.cpp" and not ALLOC_WRAPPER.search(fn)]
             inner.append(fr[0] if fr else None)           # None: no engine frame / stack could not be restored
+            allf = [f for fn, f, ln in re.findall(r"#\d+ (\S.*?) (/\S+?):(\d+)", sec) if f.startswith(src)]
+            raw_inner.append(os.path.basename(allf[0]) if allf else None)
         top = [f"{fn.split('(')[0]} {os.path.basename(f)}:{ln}" for fn, f, ln in (x for x in inner if x)]
         # races on the shared variables also show up as use-after-free / double free of the arrays they point to
         if globs:
@@ -140,6 +160,9 @@ def tsan_reports(stderr):
             # the other party may be any code that frees or reuses it (another instance's destructor, the allocator).
             # Only the transport phase of the exploration can produce such reports: the strict phase runs no TRANSPORT job.
             known = re.search(re.escape(src) + r"phreeqcpp/transport\.cpp:\d+", blk) is not None
+            if not known and transport_phase and kind in ("heap-use-after-free", "double-free", "attempting double-free", "use of an invalid pointer"):
+                restored = [x for x in raw_inner if x]
+                known = bool(restored) and all(x == "phqalloc.cpp" for x in restored)
         out.append({"kind": kind, "globals": globs, "top": top, "known": known, "text": blk.strip()[:6000]})
     return out
 
@@ -248,7 +271,7 @@ def explore_with(ctx, exe, exet, budget, tsan_budget, repeats, thread_counts, hi
         rc, got, ids4, err = run_h(ctx, exet, tj, min(8, max(2, len(tj))), 2, 2, tsan=True, hold=2)
         evals += len(tj)
         hist["tsan_runs"] += 1
-        reps = tsan_reports(err)
+        reps = tsan_reports(err, transport_phase=not judged)
         hist["tsan_reports"] += len(reps)
         for rp in reps:
             if rp["known"]:
@@ -267,9 +290,72 @@ def explore_with(ctx, exe, exet, budget, tsan_budget, repeats, thread_counts, hi
                 ctx.violation("results depend on what other threads do: " + what, {"mode": "tsan", "jobs": tj, "job_index": k})
             else:
                 ctx.finding("transport-file-scope-globals", what, {"mode": "tsan", "jobs": tj})
+    evals += burst_phase(ctx, exe, exet, hist)
     evals += nested_phase(ctx, exe, ctx.n(8, 40), hist)
     evals += names_phase(ctx, exe, ctx.n(3, 12), hist)
     return evals, len(distinct)
+
+
+def burst_phase(ctx, exe, exet, hist):
+    """several jobs of ONE rarely used engine path on several threads at the same time (gens/threads.py BURST_FAMILIES): a piece
+    of path-local scratch state turned process-wide (a function-local static in an integrator, a cached argument) is hit by two
+    threads at once only then. Natively on 8 threads (results vs the sequential reference, watchdog against non-termination:
+    such a change typically makes an iteration stop converging) and under ThreadSanitizer on 4 threads."""
+    import time
+    rng = ctx.rng
+    fams = list(gt.BURST_FAMILIES)
+    tsan_fams = fams if ctx.tier == "thorough" else fams[:3] + rng.sample(fams[3:], 2)
+    evals = 0
+    ctx.log(f"phase bursts: {len(fams)} families natively, {len(tsan_fams)} under TSan")
+    for fam in fams:
+        js = gt.burst_jobs(rng, fam, ctx.n(8, 16))
+        hist["families"][fam] = hist["families"].get(fam, 0) + len(js)
+        t0 = time.time()
+        rc, ref, _, err = run_h(ctx, exe, js, 1, 0, 0, timeout=600)
+        tseq = time.time() - t0
+        if rc != 0 or len(ref) != len(js):
+            ctx.violation(f"sequential reference of the {fam} burst did not return normally (exit {rc})", {"mode": "seq", "jobs": js, "stderr": err[-1000:]})
+            continue
+        limit = max(30.0, 40 * tseq)
+        for rep in range(ctx.n(2, 4)):
+            rc, got, ids, err = run_h(ctx, exe, js, 8, 0, 0, timeout=limit)
+            evals += len(js)
+            hist["burst_runs"] += 1
+            if LAST["timeout"]:
+                ctx.violation(f"{fam} burst: 8 threads did not finish within {limit:.0f} s (the same jobs take {tseq:.2f} s one after the other)",
+                              {"mode": "par", "threads": 8, "coexist": 0, "churn": 0, "jobs": js, "watchdog_s": limit})
+                break
+            if rc != 0:
+                ctx.violation(f"{fam} burst on 8 threads: process ended abnormally (exit {rc})", {"mode": "par", "threads": 8, "jobs": js, "stderr": err[-1500:]})
+                break
+            bad = compare(ctx, f"{fam} burst on 8 threads", js, ref, got, True, hist)
+            for k, what in bad[:3]:
+                ctx.violation("results depend on what other threads do: " + what, {"mode": "par", "threads": 8, "coexist": 0, "churn": 0, "jobs": js, "job_index": k})
+            if bad:
+                break
+        if fam in tsan_fams:
+            tj = js[:4]
+            t0 = time.time()
+            rc, got, ids, err = run_h(ctx, exet, tj, 4, 0, 0, tsan=True, timeout=max(120.0, 400 * tseq))
+            evals += len(tj)
+            hist["tsan_runs"] += 1
+            hist["burst_tsan_s"] = round(hist.get("burst_tsan_s", 0) + time.time() - t0, 1)
+            reps = tsan_reports(err)
+            hist["tsan_reports"] += len(reps)
+            for rp in reps[:3]:
+                ctx.violation(f"ThreadSanitizer ({fam} burst): " + rp["kind"] + " at " + " / ".join(rp["top"]) +
+                              (" on global " + ",".join(rp["globals"]) if rp["globals"] else ""),
+                              {"mode": "tsan", "threads": 4, "jobs": tj, "report": rp["text"]})
+            if LAST["timeout"] and not reps:
+                ctx.violation(f"{fam} burst under TSan: 4 threads did not finish within the watchdog time", {"mode": "tsan", "threads": 4, "jobs": tj})
+            elif rc != 0 and not reps and not LAST["timeout"]:
+                ctx.violation(f"{fam} burst under TSan ended abnormally (exit {rc})", {"mode": "tsan", "jobs": tj, "stderr": err[-1500:]})
+            elif not LAST["timeout"]:
+                for k, what in compare(ctx, f"{fam} burst, 4 threads under TSan", tj, {k: ref[k] for k in range(len(tj))}, got, True, hist)[:3]:
+                    ctx.violation("results depend on what other threads do: " + what, {"mode": "tsan", "jobs": tj, "job_index": k})
+        if len(ctx.violations) >= 6:
+            break
+    return evals
 
 
 def nested_phase(ctx, exe, npairs, hist):
@@ -382,7 +468,7 @@ def run(ctx):
     hist = {"families": {}, "job_comparisons": 0, "sequential_reruns": 0, "thread_runs": 0, "tsan_runs": 0, "tsan_reports": 0,
             "tsan_reports_known": 0, "ids_checked": 0, "jobs_with_error_rc": 0, "lock_balance_runs": 0, "unlock_without_lock": 0,
             "hold_hist": {}, "nested_pairs": {}, "nested_identical": 0, "nested_known_effect": 0, "nested_not_reached": 0,
-            "default_name_checks": 0, "id_pairs": []}
+            "default_name_checks": 0, "id_pairs": [], "burst_runs": 0}
     audit, glob = {}, {}
     translators_ok = True
     try:
@@ -456,7 +542,7 @@ def replay(ctx, data):
         ctx.build_lib("tsan", cxxflags=TSAN_FLAGS)
         exet = ctx.build_harness("ph_threads", variant="tsan", extra=["-fsanitize=thread", "-g1"])
         rc, got, ids, err = run_h(ctx, exet, jobs, 8, 2, 2, tsan=True)
-        for rp in tsan_reports(err):
+        for rp in tsan_reports(err, transport_phase=all(j[0] in TRANSPORT_FAMILIES for j in jobs)):
             if not rp["known"]:
                 ctx.violation("replayed: ThreadSanitizer: " + rp["kind"] + " " + " / ".join(rp["top"]), {"jobs": jobs, "report": rp["text"]})
     elif mode == "seq":
